@@ -81,7 +81,8 @@ const PRE: &str = "import { order } from \"tsrun:host\";\n";
 fn program(k: u8) -> (String, &'static str, &'static str) {
     match k {
         0 => ("1 + 1".into(), "", "n:2"),
-        1 => ("({ a: [1, 2], s: \"x\" })".into(), "", "o:{\"a\":[1,2],\"s\":\"x\"}"),
+        // (the symbol-keyed members have no C string form: keys / json_stringify must leave them out consistently)
+        1 => ("({ a: [1, 2], [Symbol.iterator]: function () { return 1; }, s: \"x\", [Symbol('t')]: 3 })".into(), "", "o:{\"a\":[1,2],\"s\":\"x\"}"),
         2 => ("import { seven } from './dep.ts';\n'dep:' + seven".into(), "/p/main.ts", "s:dep:7"),
         3 => (format!("{}const r: any = await order({{ k: 1 }});\n'got:' + JSON.stringify(r)", PRE), "/p/main.ts", ""),
         4 => (format!("{}const r: any = await Promise.all([order('a'), order({{ b: 2 }})]);\n'all:' + JSON.stringify(r)", PRE), "/p/main.ts", ""),
